@@ -43,6 +43,11 @@ func (x *Executor) execInstr(fr *Frame, in ssa.Instruction, st *State, reach str
 			} else {
 				x.check(fr, "nil", fmt.Sprintf("(not (= %s 0))", ref), reach, "nil dereference (field address)")
 			}
+			if isFlattened(fty) {
+				// interior pointer to a nested struct/array: a first-class derived reference
+				fr.vals[t] = Val{T: u.define("sub", "Int", u.subRef(pt, stt.Field(t.Field).Name(), ref)), Ty: t.Type()}
+				return
+			}
 			a = &Addr{Kind: "field", Ref: ref, Struct: pt, Field: stt.Field(t.Field).Name(), Ty: fty}
 		}
 		fr.vals[t] = Val{T: "0", Ty: t.Type(), Addr: a}
